@@ -61,9 +61,10 @@ def make_classes():
 
         @clear_pending_pop
         def _pop(self, levels=1):
+            # (atomic, like a real solver: an illegal pop changes nothing)
+            if levels > len(self.frames) - 1:
+                raise RuntimeError('backend: pop beyond the first level')
             for _ in range(levels):
-                if len(self.frames) <= 1:
-                    raise RuntimeError('backend: pop beyond the first level')
                 self.frames.pop()
             self.backend_log.append(('pop', levels))
 
